@@ -31,6 +31,16 @@ ASSUMPTIONS = ['a change of the file content without a setter call is not genera
 def pool_models():
     base = {'sheets': [{'title': 'S', 'cells': {'A1': 1, 'B1': 2, 'C1': '=A1+B1', 'A2': 5, 'C2': '=SUM(A1:B2)', 'D1': '=T!A1*2', 'D2': '=IF(A1>0,C1,C2)'}},
                        {'title': 'T', 'cells': {'A1': 10, 'B1': '=A1+S!A2', 'B2': 'text'}}]}
+    # one formula of every function family (several ranges / criteria per call): whatever a translator collects in a set or a
+    # dict keyed by objects shows as a text that depends on the hash seed
+    sink = {'A1': 3, 'A2': 1, 'A3': 2, 'B1': 'pear', 'B2': 'fig', 'B3': 'pear', 'C1': {'$dt': '2021-03-15T00:00:00'}, 'C2': {'$dt': '2022-11-30T00:00:00'},
+            'D1': '=SUMIFS(A1:A3,A1:A3,">0",B1:B3,"pear",A1:A3,"<9")', 'D2': '=COUNTIFS(A1:A3,">0",B1:B3,"p*",A1:A3,"<>5",B1:B3,"<>fig")',
+            'D3': '=AVERAGEIFS(A1:A3,B1:B3,"pear",A1:A3,">=1",A1:A3,"<=3")', 'D4': '=SUMIF(B1:B3,"pear",A1:A3)+SUM(A1:A3,A1:A2,A3)',
+            'D5': '=VLOOKUP(2,A1:B3,2,FALSE)&INDEX(B1:B3,MATCH(1,A1:A3,0))', 'D6': '=IFS(A1>5,1,A2>5,2,TRUE,3)+IFERROR(1/0,IF(A1,2,3))',
+            'D7': '=ROUND(A1/3,2)+ROUNDUP(A2/3,1)+ROUNDDOWN(A3/7,3)+MAX(A1:A3,7)-MIN(A1:A3)', 'D8': '=DATEDIF(C1,C2,"M")+NETWORKDAYS(C1,C2,C1:C2)+YEAR(EDATE(C1,3))',
+            'D9': '=LEFT(B1,2)&MID(B2,1,1)&RIGHT(B3,3)&CONCATENATE(A1,"-",A2)&SEARCH("e",B1)', 'D10': '=AND(A1>0,A2>0,A3>0)=OR(A1>2,A2>2)',
+            'D11': '=COUNT(A1:A3,B1:B3,5)+COUNTBLANK(A1:B4)+XMATCH(2,A1:A3,0,-1)', 'D12': '=ADDRESS(2,3)&TEXT(A1,"0")&VALUE("12")&COLUMN(B2)'}
+    base['sheets'].append({'title': 'K', 'cells': sink})
     w1 = json.loads(json.dumps(base))
     w1['sheets'][0]['cells']['A1'] = 3                   # differs in one constant
     w2 = {'sheets': [base['sheets'][1], base['sheets'][0]]}  # permuted sheet order
@@ -48,7 +58,7 @@ def pool_models():
     return [base, w1, w2, w3, w4, w5]
 
 
-ENTRIES = [None, ['S', 'C', '1'], ['S', 'C', '2'], ['S', 'D', '1'], ['T', 'B', '1'], [0, 2, 0], [1, 1, 0], ['S', 'D', '2'], ['S', 'E', '1'], ['T', 'B', '2']]
+ENTRIES = [None, ['K', 'D', '1'], ['K', 'D', '2'], ['S', 'C', '1'], ['S', 'C', '2'], ['S', 'D', '1'], ['T', 'B', '1'], [0, 2, 0], [1, 1, 0], ['S', 'D', '2'], ['S', 'E', '1'], ['T', 'B', '2']]
 
 
 def make_pool(dirpath):
